@@ -21,15 +21,21 @@ _READER_NOTE = ("Trusted: Coq kernel + vm_compute; the hand-written byte-level r
                 "bytes, not modelled. ")
 
 claim("C01",
-      "Proof (partial) + correspondence: the refinement chain of `rd_all (ser f) = meaning f` is proved layer by layer "
-      "(Props/C01.v: field codecs in both byte orders, value-byte canonicalisation involution, lexer inverts serialiser for "
-      "metadata blocks, receivers concatenate in file order); the composed theorem is not finished and is labelled partial. "
-      "The executable reader model is validated against TdmsFile.read on every run over random well-formed files (all 17 "
-      "types x contiguous/interleaved x chunkings x byte orders x inheritance encodings) and over single-fault malformed "
-      "files (accept/reject and content), and the implementation is compared with an independent reference meaning.",
-      _READER_NOTE + "The end-to-end theorem is partial: see Props/C01.v header.",
-      "Coq proof of the codec/lexer layers + in-Coq reader model vs implementation correspondence + independent-encoder oracle",
-      "DESIGN.md section 7, C01")
+      "Proof + correspondence. read_correct (Props/C01_read.v, closed under the global context): for every well-formed "
+      "file syntax whose raw data blocks are the contiguous/interleaved encodings of given chunk values, the byte-level "
+      "reader model applied to the serialised bytes returns exactly the expected observation: every object once, "
+      "hierarchy in order of first appearance, each channel's values the file-order concatenation over every chunk of "
+      "every segment, canonical bit-exact values with the encoded type, lengths equal to the number of values, last "
+      "property values. Built from proved layers (Props/C01.v, C01_file.v): codecs in both byte orders, lexer inverts "
+      "serialiser, rd_metadata on bytes = state machine on syntax, decoders invert encoders for all sized types / "
+      "strings / contiguous chunks / interleaved rows. Outside the theorem: DAQmx (C11), truncation (C06), success of the "
+      "metadata pass (C02). The model is validated against TdmsFile.read on every run over random well-formed files "
+      "(all 17 types x layouts x chunkings x byte orders x inheritance encodings) and single-fault malformed files, and "
+      "the implementation is compared with an independent reference meaning.",
+      _READER_NOTE + "UTF-8 decoding and NumPy byte reinterpretation are observed, not modelled.",
+      "Coq proof of the end-to-end reader theorem on the byte-level model + in-Coq model vs implementation "
+      "correspondence + independent-encoder oracle",
+      "DESIGN.md section 7 C01, 13.3")
 claim("C02",
       "Proof + exhaustive correspondence. Theorems about the mechanism model of read_segment_objects (Props/C02.v, 31 "
       "statements, closed): the stale positional index map is harmless (mechanism = update-by-path under no-duplicate "
